@@ -29,6 +29,8 @@ import c19lib as L
 from c19lib import cps
 
 PROP = 'C19'
+ITER_OPS = {'IterEnumerateInstances': ('OpenEnumerateInstances', 'PullInstancesWithPath', 'EnumerateInstances'),
+            'IterEnumerateInstancePaths': ('OpenEnumerateInstancePaths', 'PullInstancePaths', 'EnumerateInstanceNames')}
 
 URL = 'http://höst.example:5988'
 TRANSPORT_EXC = ['ConnectionError', 'ReadTimeout', 'ConnectTimeout', 'SSLError', 'ChunkedEncodingError',
@@ -134,6 +136,8 @@ def call_args(op, o, special):
         return ('M', rng.choice([path, o['klass'].classname])), dict(Params=params, **kw)
     if op == 'ExportIndication':
         return (inst,), {}
+    if op in ITER_OPS:
+        return (o['klass'].classname,), dict(namespace=ns, MaxObjectCount=rng.choice([1, 10, 1000]))
     raise ValueError(op)
 
 
@@ -163,7 +167,7 @@ def gen_script(rng, op, objs, special):
         ok_body = L.response_body(op, L.success_children(op, objs), mname)
     except Exception:       # an object the generator made that cannot be written as CIM-XML
         ok_body = L.response_body(op, [], mname)
-    if special in ('method_kw', 'datetime_param', 'float_key', 'char16') or x < 0.42:
+    if special in ('method_kw', 'datetime_param', 'float_key', 'char16', 'success-only') or x < 0.42:
         return {'status': 200, 'reason': 'OK', 'headers': hdrs, 'body': ok_body}, 'success'
     if x < 0.52:
         code = rng.choice([1, 2, 3, 4, 5, 6, 7, 12, 15, 20, 21, 28, 99])
@@ -265,8 +269,36 @@ def gen_case(rng, thorough):
             op, special = 'CreateInstance', 'char16'
         elif y < 0.17:
             special = 'bad_arg'
+        elif y < 0.22:
+            op = rng.choice(sorted(ITER_OPS))
         aseed = rng.getrandbits(32)
         objs = gen_objs(aseed)
+        if op in ITER_OPS:
+            # a generator over Open…/Pull… (or the traditional operation): several scripted steps, oracle only
+            o_op, p_op, t_op = ITER_OPS[op]
+            steps, tag = [], 'iter'
+            z = rng.random()
+            if z < 0.35:
+                s1, _ = gen_script(rng, o_op, dict(objs, eos=False), 'success-only')
+                s2, t2 = gen_script(rng, p_op, dict(objs, eos=True), None)
+                steps, tag = [s1, s2], 'iter:open+pull:' + t2
+            elif z < 0.6:
+                s1, t1 = gen_script(rng, o_op, dict(objs, eos=True), None)
+                steps, tag = [s1], 'iter:open:' + t1
+            elif z < 0.8:
+                body = L.response_body(o_op, L.error_children(7, 'not supported'))
+                s2, t2 = gen_script(rng, t_op, objs, None)
+                steps = [{'status': 200, 'reason': 'OK', 'headers': {'Content-type': 'text/xml'}, 'body': body}, s2]
+                tag = 'iter:fallback:' + t2
+            else:
+                s1, t1 = gen_script(rng, t_op, objs, None)
+                steps, tag = [s1, s1], 'iter:any:' + t1
+            for st in steps:
+                if 'body' in st and isinstance(st['body'], bytes):
+                    bodies.append(st['body'])
+            steps = [dict(st, body=st['body'].hex()) if isinstance(st.get('body'), bytes) else st for st in steps]
+            calls.append({'op': op, 'aseed': aseed, 'special': None, 'script': steps[0], 'more': steps[1:], 'tag': tag})
+            continue
         script, tag = gen_script(rng, op, objs, special)
         if 'body' in script:
             bodies.append(script['body'])
@@ -283,7 +315,8 @@ def gen_case(rng, thorough):
     tcr = None
     if rng.random() < 0.55:
         tcr = {'enabled': rng.random() < 0.85, 'first': rng.random() < 0.5}
-    return {'creds': rng.choice(['tuple', 'tuple', 'tuple', 'none', 'list']),
+    return {'pull': rng.choice([None, None, True, False]),
+            'creds': rng.choice(['tuple', 'tuple', 'tuple', 'none', 'list']),
             'stats': rng.random() < 0.6, 'debug': rng.random() < 0.4, 'log': log, 'tcr': tcr, 'calls': calls}
 
 
@@ -418,13 +451,14 @@ def execute(case, observed):
             configure(True)
         if log and log['when'] == 'before':
             res['on_add'] = enabled_now()
-        conn = pywbem.WBEMConnection(URL, creds_of(case['creds']), stats_enabled=bool(observed and case['stats']))
-        scripts = []
-        for c in case['calls']:
-            s = dict(c['script'])
-            if 'body' in s:
-                s['body'] = bytes.fromhex(s['body'])
-            scripts.append(s)
+        conn = pywbem.WBEMConnection(URL, creds_of(case['creds']), stats_enabled=bool(observed and case['stats']),
+                                     use_pull_operations=case.get('pull', False))
+        def unhex(st):
+            st = dict(st)
+            if 'body' in st:
+                st['body'] = bytes.fromhex(st['body'])
+            return st
+        scripts = [[unhex(st) for st in [c['script']] + c.get('more', [])] for c in case['calls']]
         adapter = L.make_adapter([])
         conn.session.mount('http://', adapter)
         posted = []            # what pywbem hands to requests (requests may reject it before the adapter sees it)
@@ -462,13 +496,15 @@ def execute(case, observed):
         for idx, c in enumerate(case['calls']):
             objs = gen_objs(c['aseed'])
             args, kw = call_args(c['op'], objs, c['special'])
-            adapter.script = [scripts[idx]]
+            adapter.script = list(scripts[idx])
             n_sent = len(adapter.sent)
             n_posted = len(posted)
             before = {k: (v.count, v.exception_count) for k, v in conn.statistics.snapshot()}
             meth = getattr(conn, c['op'])
             try:
                 ret = meth(*args, **kw)
+                if c['op'] in ITER_OPS:
+                    ret = list(ret)
                 kind, val = 'ok', ret
             except Exception as e:  # noqa
                 kind, val = 'exc', e
@@ -477,6 +513,7 @@ def execute(case, observed):
             snap = conn.statistics.snapshot()
             r = {
                 'kind': kind, 'val': val, 'outcome': outcome_json(kind, val),
+                'exc_args': str(getattr(val, 'args', None)).replace(conn.conn_id, '<conn_id>') if kind == 'exc' else None,
                 'sent_body': sent[0] if sent else None, 'sent_headers': sent[1] if sent else None,
                 'reached_adapter': reached,
                 'last_raw_request': conn.last_raw_request, 'last_raw_reply': conn.last_raw_reply,
@@ -636,6 +673,8 @@ def model_request(case, bare, obs):
     else:
         recs = ([log_spec] if log else []) + ([tcr_spec] if tcr else [])
     calls = []
+    if any(c['op'] in ITER_OPS for c in case['calls']):
+        return None                # Iter… generators run several operations: oracle only
     for c, b in zip(case['calls'], bare['calls']):
         kwj = kwargs_json(c['op'], b['args'], b['kw'])
         if kwj is None:
@@ -695,6 +734,10 @@ def input_class(call, bare_call):
         L.pyval_classes(L.to_pyval(v), classes)
     if bare_call['kind'] == 'ok':
         L.pyval_classes(L.to_pyval(bare_call['val']), classes)
+    if call['op'] in ITER_OPS:
+        # the operations an Iter… generator delegates to return (and record) the scripted objects
+        for i in gen_objs(call['aseed'])['insts']:
+            L.pyval_classes(L.to_pyval(i), classes)
     # toyaml converts everything before yaml.dump runs: a value it has no branch for raises first
     if 'float' in classes:
         return 'plain_float_value'
@@ -712,7 +755,8 @@ def same_outcome(b, o):
         return False
     if b['kind'] == 'ok':
         return L.to_pyval(b['val']) == L.to_pyval(o['val'])
-    return b['outcome'] == o['outcome']
+    # exception: class, CIM status and args (the connection id inside messages is masked)
+    return b['outcome'] == o['outcome'] and b['exc_args'] == o['exc_args']
 
 
 def content_type_ok(headers):
@@ -740,6 +784,8 @@ def oracle(case, bare, obs):
         if not same_outcome(b, o):
             out.append((dict(base, kind='outcome_changed', bare=b['outcome'].get('exc', 'ok')),
                         {'call': i, 'op': c['op'], 'bare': b['outcome'], 'observed': o['outcome'], 'response': c['tag']}))
+        if c['op'] in ITER_OPS:
+            continue               # counted under the names of the operations it delegates to
         if case['stats']:
             before = o['stats_before'].get(c['op'], (0, 0))
             after = next(((s[1], s[2]) for s in o['stats'] if s[0] == c['op']), (0, 0))
@@ -752,6 +798,14 @@ def oracle(case, bare, obs):
                             {'call': i, 'op': c['op'], 'before': before, 'after': after}))
         elif o['stats']:
             out.append(({'kind': 'stats_recorded_while_disabled'}, {'call': i, 'stats': o['stats']}))
+        # the observers must not change what is handed to the transport either
+        if (b['sent_body'], sorted(b['sent_headers'] or [])) != (o['sent_body'], sorted(o['sent_headers'] or [])) \
+                and same_outcome(b, o):
+            hb, ho = dict(b['sent_headers'] or []), dict(o['sent_headers'] or [])
+            out.append((dict(base, kind='request_changed_by_observers',
+                             part='body' if b['sent_body'] != o['sent_body'] else 'headers'),
+                        {'call': i, 'op': c['op'],
+                         'headers_differing': sorted(k for k in set(hb) | set(ho) if hb.get(k) != ho.get(k))}))
         # bytes exchanged
         script = c['script']
         if o['sent_body'] is not None:
@@ -965,7 +1019,7 @@ def toyaml_stream(run, n):
 # --------------------------------------------------------------------------- entry points
 
 def case_key(case):
-    return {'creds': case['creds'], 'stats': case['stats'], 'debug': case['debug'], 'log': case['log'],
+    return {'pull': case.get('pull', False), 'creds': case['creds'], 'stats': case['stats'], 'debug': case['debug'], 'log': case['log'],
             'tcr': case['tcr'], 'calls': [{k: c[k] for k in ('op', 'aseed', 'special', 'tag')} |
                                           {'script': common.hashlib.sha1(json.dumps(c['script'], sort_keys=True).encode()).hexdigest()[:12]}
                                           for c in case['calls']]}
@@ -1000,7 +1054,8 @@ def run_cases(run, cases):
                 run.disagree(case, {what: m}, {what: r}, 'operation under observers: ' + what +
                              (' (+%d more)' % (len(diffs) - 1) if len(diffs) > 1 else ''))
         else:
-            run.count('not-modelled:call-does-not-bind-or-nonstr-header')
+            run.count('oracle-only:iter' if any(c['op'] in ITER_OPS for c in case['calls'])
+                      else 'not-modelled:call-does-not-bind-or-nonstr-header')
 
 
 def run(run):
